@@ -37,7 +37,7 @@ def rules(model: Model, tier: str) -> List[RuleResult]:
     R6 = RuleResult(PROP, "AC6", "layout agreement of quad's apply calls with forward's split", min_instances=5)
     I = RuleResult(PROP, "C13-I", "no isinstance(v, Tensor) on a value every reaching definition of which is torch.as_tensor/tensor(...)", min_instances=2)
     Z = RuleResult(PROP, "C13-Z", "no negative slicing by a count that can be zero without a guard", min_instances=1)
-    L = RuleResult(PROP, "C13-L", "Leibniz boundary terms: signs, evaluation points, None-gating, pack/unpack order", min_instances=6)
+    L = RuleResult(PROP, "C13-L", "Leibniz boundary terms: signs, evaluation points, None-gating, pack/unpack order", min_instances=5)
 
     ac.ac1_arity(model, fc, R1)
     ac.ac2_frozen_none(fc, R2)
@@ -143,6 +143,113 @@ def negative_count_slicing(model: Model, Z: RuleResult):
     return n_inst
 
 
+def _limits_roundtrip(fc, L: RuleResult):
+    """The limits survive forward -> backward for each of the four combinations (xl tensor?, xu tensor?): forward splits them into
+    the saved tensors and a context attribute, backward must re-assemble exactly (xl, xu).  Decided by abstract evaluation of the
+    pack / unpack statements on symbolic limits (domains/dictsem.py), so every spelling of the split and of the re-assembly - an
+    if/elif chain, conditional expressions, iterators consumed in order - is accepted, and any that swaps or drops a limit is
+    reported with the combination for which it does."""
+    from ..domains.dictsem import DictInterp, Unsupported, Raised
+    fw, bw = fc.forward, fc.backward
+    c_f, c_b = fc.ctx, fc.bctx
+    # forward: statements that (transitively) feed save_for_backward or a ctx attribute and mention only xl / xu / the flags
+    save = [c for c in own_nodes(fw.node) if isinstance(c, ast.Call) and ast.unparse(c.func) == "%s.save_for_backward" % c_f]
+    if len(save) != 1:
+        L.undecided(fw, fw.node, "cannot find the single save_for_backward call of forward")
+        return
+    relevant_names = {"xl", "xu"}
+    fstmts = []
+    for st in own_nodes(fw.node):
+        if isinstance(st, ast.Assign):
+            src = ast.unparse(st.value)
+            tgt = ast.unparse(st.targets[0])
+            loaded = {n.id for n in ast.walk(st.value) if isinstance(n, ast.Name)} | {ast.unparse(n) for n in ast.walk(st.value) if isinstance(n, ast.Attribute)}
+            if (("xltensor" in src or "xutensor" in src) and ("xl" in loaded or "xu" in loaded)) or \
+                    (loaded & relevant_names and loaded <= relevant_names | {c_f, "%s.xltensor" % c_f, "%s.xutensor" % c_f, "torch", "isinstance", "torch.Tensor"} and tgt not in ("xl", "xu")):
+                if not tgt.endswith("tensor") or "isinstance" not in src:
+                    fstmts.append(st)
+                    relevant_names |= {n.id for n in ast.walk(st.targets[0]) if isinstance(n, ast.Name)}
+    bstmts = [st for st in _unpack_statements(bw, c_b)]
+    if not fstmts or not bstmts:
+        L.undecided(bw, bw.node, "cannot find the pack (forward) / unpack (backward) of the tensor limits")
+        return
+    bad = None
+    for xlT in (True, False):
+        for xuT in (True, False):
+            try:
+                fi_ = DictInterp({"xl": "XL", "xu": "XU", "%s.xltensor" % c_f: xlT, "%s.xutensor" % c_f: xuT})
+                fi_.run(sorted(fstmts, key=lambda s_: s_.lineno))
+                saved_first = []
+                for a in save[0].args:
+                    if isinstance(a, ast.Starred) and isinstance(a.value, ast.Name) and a.value.id in fi_.env:
+                        saved_first = list(fi_.env[a.value.id])
+                        break
+                ctx_attrs = {k.replace(c_f + ".", c_b + ".", 1): v for k, v in fi_.env.items() if k.startswith(c_f + ".")}
+                env = dict(ctx_attrs)
+                env["%s.saved_tensors" % c_b] = tuple(saved_first + ["P1", "P2"])
+                env["%s.param_sep.ntensors()" % c_b] = 2
+                bi_ = _BackInterp(env, c_b)
+                bi_.run(bstmts)
+                got = (bi_.env.get("xl"), bi_.env.get("xu"))
+            except Unsupported as e:
+                L.undecided(bw, bw.node, "cannot interpret the pack / unpack of the limits (%s)" % e)
+                return
+            except Raised as e:
+                got = ("raises %s" % e, None)
+            if got != ("XL", "XU") and bad is None:
+                bad = (xlT, xuT, got)
+    if bad is None:
+        L.ok(bw.fq, "the limits are re-assembled as (xl, xu) for all four tensor / non-tensor combinations (abstract evaluation of pack and unpack)")
+    else:
+        L.bad(bw, bstmts[0], "with xl %s and xu %s backward re-assembles the limits as %s instead of (xl, xu): the boundary terms and the backward "
+              "integral use the wrong interval" % ("a tensor" if bad[0] else "a number", "a tensor" if bad[1] else "a number", (bad[2],)))
+
+
+class _BackInterp:
+    """DictInterp with `ctx.param_sep.ntensors()`-style calls looked up by their text"""
+    def __init__(self, env, ctxname):
+        from ..domains.dictsem import DictInterp
+        outer = self
+
+        class _I(DictInterp):
+            def call(self, c):
+                t = ast.unparse(c)
+                if t in self.env:
+                    return self.env[t]
+                return super().call(c)
+        self._i = _I(env)
+        self.env = self._i.env
+
+    def run(self, stmts):
+        self._i.run(stmts)
+        self.env = self._i.env
+
+
+def _unpack_statements(bw, c_b):
+    """the statements of backward that produce xl and xu: backward slice on names from the definitions of xl / xu, restricted to
+    statements that involve the context, the saved tensors or already relevant names"""
+    stmts = [st for st in bw.node.body]
+    # flatten one level of `with` blocks (the limits are restored inside `with fcn.disable_state_change()`)
+    flat = []
+    for st in stmts:
+        flat.append(st)
+        if isinstance(st, ast.With):
+            flat.extend(st.body)
+    need = {"xl", "xu"}
+    chosen = []
+    for st in reversed(flat):
+        if isinstance(st, ast.With):
+            continue
+        stores = {n.id for n in ast.walk(st) if isinstance(n, ast.Name) and isinstance(n.ctx, ast.Store)}
+        if stores & need and not any(isinstance(x, (ast.FunctionDef, ast.Return)) for x in ast.walk(st)):
+            calls = [ast.unparse(c.func) for c in ast.walk(st) if isinstance(c, ast.Call)]
+            if any(cn.split(".")[-1] in ("dot", "quad", "reconstruct_params", "grad") or cn in ("fcn",) for cn in calls):
+                continue
+            chosen.append(st)
+            need |= {n.id for n in ast.walk(st) if isinstance(n, ast.Name) and isinstance(n.ctx, ast.Load)}
+    return list(reversed(chosen))
+
+
 # -------------------------------------------------------------------------------------------------
 def _leibniz(fc, L: RuleResult):
     fw, bw = fc.forward, fc.backward
@@ -159,10 +266,25 @@ def _leibniz(fc, L: RuleResult):
                 L.bad(bw, r, "gradient slot of %s is not a plain name" % lim)
                 continue
             ds = bdefs.get(e.id, [])
-            if len(ds) != 1 or not isinstance(ds[0], ast.IfExp):
+            # two spellings of the gate: `<term> if ctx.<lim>tensor else None`, or `g = None` followed by `if ctx.<lim>tensor: g = <term>`
+            class _D:
+                pass
+            d = None
+            if len(ds) == 1 and isinstance(ds[0], ast.IfExp):
+                d = ds[0]
+            elif len(ds) == 2 and sum(1 for x in ds if isinstance(x, ast.Constant) and x.value is None) == 1:
+                term = [x for x in ds if not (isinstance(x, ast.Constant) and x.value is None)][0]
+                from ..model import effective_conditions
+                conds = effective_conditions(enclosing_stmt(term))
+                gates = [t_ for t_, v_ in conds if v_ and t_.endswith("%stensor" % lim)]
+                if gates:
+                    d = _D()
+                    d.body, d.test, d.orelse = term, ast.parse(gates[0], mode="eval").body, ast.Constant(value=None)
+                    d.lineno = getattr(term, "lineno", 0)
+                    d._stmt = enclosing_stmt(term)
+            if d is None:
                 L.bad(bw, r, "gradient of %s must be `<term> if ctx.%stensor else None`" % (lim, lim))
                 continue
-            d = ds[0]
             gate = ast.unparse(d.test)
             gate_ok = gate == "%s.%stensor" % (fc.bctx, lim) and isinstance(d.orelse, ast.Constant) and d.orelse.value is None
             sign = expr_sign(d.body, bdefs)
@@ -175,7 +297,7 @@ def _leibniz(fc, L: RuleResult):
             if gate_ok and sign == want and at == lim and uses_cot:
                 L.ok(bw.fq, what)
             else:
-                L.bad(bw, enclosing_stmt(d), "Leibniz term of %s must be %s f(%s) . grad, gated by ctx.%stensor (got sign %+d at `%s`, gate `%s`)"
+                L.bad(bw, getattr(d, "_stmt", None) or enclosing_stmt(d), "Leibniz term of %s must be %s f(%s) . grad, gated by ctx.%stensor (got sign %+d at `%s`, gate `%s`)"
                       % (lim, "-" if want < 0 else "+", lim, lim, sign, at, gate), what=what)
     # forward records the flags before coercion and packs [xl] + [xu]
     fdefs = function_defs(fw.node)
@@ -186,47 +308,7 @@ def _leibniz(fc, L: RuleResult):
             L.ok(fw.fq, "forward records ctx.%stensor = isinstance(%s, torch.Tensor)" % (lim, lim))
         else:
             L.bad(fw, found[0] if found else fw.node, "forward must record whether %s is a tensor input" % lim)
-    pack = [s for s in own_nodes(fw.node) if isinstance(s, ast.Assign) and isinstance(s.targets[0], ast.Name) and s.targets[0].id == "xlxu_tensor"]
-    order_fw = [n.id for n in ast.walk(pack[0].value) if isinstance(n, ast.Name) and n.id in ("xl", "xu")] if pack else []
-    # backward unpack branches
-    chain = [s for s in own_nodes(bw.node) if isinstance(s, ast.If) and "xltensor" in ast.unparse(s.test) and "xutensor" in ast.unparse(s.test)]
-    if not chain or order_fw != ["xl", "xu"]:
-        L.bad(bw, bw.node, "cannot find the pack (forward) / unpack (backward) of the tensor limits")
-        return
-    node = chain[0]
-    branches = []
-    while True:
-        branches.append((ast.unparse(node.test), node.body))
-        if len(node.orelse) == 1 and isinstance(node.orelse[0], ast.If):
-            node = node.orelse[0]
-        else:
-            branches.append(("else", node.orelse))
-            break
-    want = {
-        "%s.xltensor and %s.xutensor" % (fc.bctx, fc.bctx): {"xl": ("T", 0), "xu": ("T", 1)},
-        "%s.xltensor" % fc.bctx: {"xl": ("T", 0), "xu": ("N", 0)},
-        "%s.xutensor" % fc.bctx: {"xu": ("T", 0), "xl": ("N", 0)},
-        "else": {"xl": ("N", 0), "xu": ("N", 1)},
-    }
-    for test, body in branches:
-        got = {}
-        for s in body:
-            if isinstance(s, ast.Assign):
-                t = s.targets[0]
-                v = s.value
-                src = "T" if "xlxu_tensor" in ast.unparse(v) else ("N" if "xlxu_nontensor" in ast.unparse(v) else "?")
-                if isinstance(t, ast.Tuple):
-                    for k, el in enumerate(t.elts):
-                        if isinstance(el, ast.Name):
-                            got[el.id] = (src, k)
-                elif isinstance(t, ast.Name):
-                    k = v.slice.value if isinstance(v, ast.Subscript) and isinstance(v.slice, ast.Constant) else 0
-                    got[t.id] = (src, k)
-        what = "unpack branch `%s`: %s" % (test, got)
-        if test in want and got == want[test]:
-            L.ok(bw.fq, what)
-        else:
-            L.bad(bw, body[0] if body else bw.node, "restoration of the limits in branch `%s` does not match forward's packing order" % test, what=what)
+    _limits_roundtrip(fc, L)
 
 
 def _fcn_names(fc) -> set:
